@@ -51,7 +51,22 @@ def i_normal(F, res):
             by = None
             # (1) empty map
             if all(o.kind == "call" and o.callee.endswith("HashMap::<K, V>::new") for o in origins):
-                by = "built from HashMap::new()"
+                # ... and still empty: the map is never borrowed mutably between its creation and the construction
+                locs = set()
+                for o in origins:
+                    locs.add(o.term["dest"]["l"])
+                changed = True
+                while changed:
+                    changed = False
+                    for bj, sj, s2 in mir.stmts(f):
+                        if s2["rv"]["k"] == "use" and not s2["lhs"]["p"]:
+                            pl2 = mir.op_place(s2["rv"]["op"])
+                            if pl2 is not None and not pl2["p"] and pl2["l"] in locs and s2["lhs"]["l"] not in locs:
+                                locs.add(s2["lhs"]["l"])
+                                changed = True
+                mutated = [s2["line"] for bj, sj, s2 in mir.stmts(f) if s2["rv"]["k"] in ("ref", "rawptr") and s2["rv"].get("mut") and s2["rv"]["pl"]["l"] in locs]
+                if not mutated:
+                    by = "built from HashMap::new() and never borrowed mutably before the construction"
             # (2) dominated by retain on the same map
             if by is None:
                 for bj, t in _calls(f):
